@@ -83,6 +83,12 @@ def cases(tier, seed):
             continue          # MieLens needs all points at one height
         out.append({"id": "points-mixed-z:%s" % th, "kind": "mixedz",
                     "th": th})
+    # the same locations written in other coordinate forms: integer-valued
+    # coordinates (integer pixel spacing, integer point lists) and spherical
+    # detector points
+    for th in TH_TIER[tier]:
+        out.append({"id": "coord-forms:%s" % th, "kind": "coordforms",
+                    "th": th})
     # sparse subsets of a large image (distinctness is a birthday problem
     # there) -- pure selection, no scattering
     for blk in range(5):
@@ -350,6 +356,76 @@ def _run_mixedz(case, ck):
     return digest(*fps)
 
 
+def _run_coordforms(case, ck):
+    import holopy as hp
+    from holopy.scattering import calc_field
+    th = case["th"]
+    scat, theory = _theory(th)
+    fps = []
+    # ---- integer-valued coordinates ---------------------------------------
+    for sp_i, sp_f in ((1, 1.0), ((2, 1), (2.0, 1.0))):
+        gi = hp.detector_grid((3, 4), sp_i)
+        gf = hp.detector_grid((3, 4), sp_f)
+        a = _holo(gi, scat, _theory(th)[1]).values
+        b = _holo(gf, scat, _theory(th)[1]).values
+        ck.trans += 2
+        _same(ck, "integer-coordinates", th, a, b, "%s: grid with integer "
+              "pixel spacing %r vs the same spacing written as float" %
+              (th, sp_i))
+        fps.append(fp_values(a))
+    xi = np.array([0, 1, 2, -1, 0])
+    yi = np.array([1, 0, 2, 1, -2])
+    for zi, zf in ((0, 0.0), (np.array([0, 0, 0, 0, 0]), np.zeros(5))):
+        try:
+            a = _holo(hp.detector_points(x=xi, y=yi, z=zi), scat,
+                      _theory(th)[1]).values
+            b = _holo(hp.detector_points(x=xi.astype(float),
+                                         y=yi.astype(float), z=zf), scat,
+                      _theory(th)[1]).values
+        except Exception as e:
+            if H.is_refusal(e):
+                continue
+            raise
+        ck.trans += 2
+        _same(ck, "integer-coordinates", th, a, b, "%s: point list with "
+              "integer coordinates vs the same points as floats" % th)
+    # ---- spherical detector points vs the same locations in Cartesian ----
+    c = np.asarray(scat.center, float) if scat.center is not None else None
+    if c is not None and not th.startswith("mielens"):
+        R = 5.0
+        TH = [0.0, 1e-3, 0.7, math.pi / 2, 2.5, math.pi]
+        PH = [0.0, 1.0, math.pi, 5.0]
+        tt, pp = [v.ravel() for v in np.meshgrid(TH, PH, indexing="ij")]
+        ds = hp.detector_points(r=R, theta=tt, phi=pp)
+        # z points against the direction of propagation
+        dc = hp.detector_points(x=c[0] + R * np.sin(tt) * np.cos(pp),
+                                y=c[1] + R * np.sin(tt) * np.sin(pp),
+                                z=c[2] - R * np.cos(tt))
+        for name, fn in (("holo", lambda d: _holo(d, scat,
+                                                  _theory(th)[1]).values),
+                         ("field", lambda d: calc_field(
+                             d, scat, theory=_theory(th)[1], **OPT).values)):
+            try:
+                a, b = fn(ds), fn(dc)
+            except Exception as e:
+                if H.is_refusal(e):
+                    continue
+                raise
+            ck.trans += 2
+            e = float(np.abs(a - b).max() / np.abs(b).max())
+            ck.metric("spherical-vs-cartesian", e)
+            ck.true("spherical-points", e <= 1e-9, "%s: %s at spherical "
+                    "detector points differs from the same locations given "
+                    "in Cartesian coordinates by %.2e (worst point theta=%r "
+                    "phi=%r)" % (th, name, e,
+                                 float(tt[int(np.argmax(np.abs(
+                                     a - b).reshape(len(tt), -1).max(1)))]),
+                                 float(pp[int(np.argmax(np.abs(
+                                     a - b).reshape(len(tt), -1).max(1)))])))
+            fps.append(fp_values(a))
+    return digest(*fps)
+
+
 def _run_biglarge(case, ck):
     from holopy.core.metadata import make_subset_data
     det = H.det_grid((120, 90), 0.1, name="cam")
@@ -592,6 +668,7 @@ def run_case(case):
     fp = {"grid": _run_grid, "scripted": _run_scripted,
           "mixedz": _run_mixedz, "biglarge": _run_biglarge,
           "gridfar": _run_gridfar, "lenscounts": _run_lenscounts,
+          "coordforms": _run_coordforms,
           "history": _run_history}[case["kind"]](case, ck)
     return ck.result(fp=fp)
 
